@@ -115,7 +115,7 @@ func runSeq(c Case) (res Result) {
 	}()
 	p := common.Safely(func() {
 		var err error
-		im, err = newImpl(c.PSKLen, c.TCP, c.UDP, c.Init, true)
+		im, err = newImplFB(c.PSKLen, c.TCP, c.UDP, c.Init, true, c.Fallback)
 		if err != nil {
 			if strings.HasPrefix(err.Error(), "harness:") {
 				res.HarnessErr = err.Error()
